@@ -245,6 +245,10 @@ Definition do_act (r : rst) (a : act) : rst :=
   | ALogon =>
     let pm := logon_pm (r_pe r) (w_now (r_w r)) in
     peer_send r false (pm_type pm) (pm_body pm)
+  | ALogonR y =>
+    let r0 := if y then r_with_pe (pe_with_next 1 (r_pe r)) r else r in
+    let pm := logon_pm (r_pe r0) (w_now (r_w r0)) in
+    peer_send r0 false (pm_type pm) (pm_body pm ++ [(T_ResetSeqNumFlag, if y then s_Y else [78])])%list
   | AMsg lost t body => peer_send r lost t body
   end.
 
